@@ -74,7 +74,13 @@ def run(tier: str, seed: int) -> int:
         nb += 1
         rep.traces += 1
         for member, op, detail in badb:
-            rep.violation(f"impl:{key[0]}:{op}", f"batched {key}: member {js[member]}: {op} {detail}", {"instance": _ser(insts[js[member]]), "op": op})
+            sing = not bool(res[js[member]]["dense"]["invertible"])
+            if op == "vmap.revert.joint.cov" and sing:
+                # same call site and input class as the unbatched finding (revert with a singular observed covariance)
+                vkey = f"impl:revert.backward.marginalise(observed).cov:singularS:{key[0]}:vmap"
+            else:
+                vkey = f"impl:{key[0]}:{op}"
+            rep.violation(vkey, f"batched {key}: member {js[member]}: {op} {detail}", {"instance": _ser(insts[js[member]]), "op": op})
     rep.extra["batched_groups"] = nb
     rep.assumptions = [
         "instances are small integers with power-of-two scalings (|entries| <= 3, n <= 4, d <= 3, scalings 2^-8..2^8); results compared at 1e-9 relative",
